@@ -120,4 +120,26 @@ theorem pref_addr_image_is_valid_param (p : PrefAddr) (h : wfPrefAddr p = true) 
     simp; omega
   simp [this]; omega
 
+/-- **Every one of the 2^128 IPv6 values** (and every port) round-trips as an IPv6 socket address and is
+written in exactly 2 + 16 bytes — including the values that look like IPv4 (IPv4-mapped `::ffff:a.b.c.d`,
+IPv4-compatible, `::`, `::1`): the family is part of the value, never derived from the address bits. -/
+theorem dec_enc_sock_addr_every_v6 (ip port : Nat) (rest : Bytes) (hip : ip < 2 ^ 128) (hp : port < 2 ^ 16) :
+    pSockAddr true (encSockAddr ⟨true, ip, port⟩ ++ rest) = .ok ⟨true, ip, port⟩ rest ∧
+    (encSockAddr ⟨true, ip, port⟩).length = 2 + 16 ∧ sockAddrSize ⟨true, ip, port⟩ = 2 + 16 := by
+  refine ⟨pSockAddr_enc ⟨true, ip, port⟩ rest hp (by simpa using hip), ?_, rfl⟩
+  rw [encSockAddr_length]; rfl
+
+/-- the IPv4-mapped address `[::ffff:192.0.2.1]:443` of seeded change c05-1 is such a value -/
+example : pSockAddr true (encSockAddr ⟨true, 0xffff_c0000201, 443⟩ ++ [7]) = .ok ⟨true, 0xffff_c0000201, 443⟩ [7] ∧
+    (encSockAddr ⟨true, 0xffff_c0000201, 443⟩).length = 18 := by decide
+
+/-- and every IPv4 value in 2 + 4 bytes -/
+theorem dec_enc_sock_addr_every_v4 (ip port : Nat) (rest : Bytes) (hip : ip < 2 ^ 32) (hp : port < 2 ^ 16) :
+    pSockAddr false (encSockAddr ⟨false, ip, port⟩ ++ rest) = .ok ⟨false, ip, port⟩ rest ∧
+    (encSockAddr ⟨false, ip, port⟩).length = 2 + 4 := by
+  refine ⟨pSockAddr_enc ⟨false, ip, port⟩ rest hp (by simpa using hip), ?_⟩
+  rw [encSockAddr_length]; rfl
+
+example : (0xffffffff : Nat) < 2 ^ 32 ∧ (65535 : Nat) < 2 ^ 16 := by decide
+
 end GmQuic.Codec
